@@ -77,17 +77,16 @@ Theorem C04_frame_keyed_list_partial :
 Proof. exact (@merge2_frame_keyed). Qed.
 Print Assumptions C04_frame_keyed_list_partial.
 
-(* Composite merge keys (Service ports [port, protocol]): "$patch: delete" on a port written without protocol removes it
-   when it is alone, but is silently ignored as soon as another element of the list spells a protocol -- the result is
-   the unchanged target (finding C04/reference/composite-key-delete-ignored-when-protocol-spelled-elsewhere; repair
-   proposed, see design.d/C04.md). *)
-Theorem C04_composite_key_delete_refuted :
-  smerge cd_p cd_t = Ok (Some cd_t) /\
+(* Composite merge keys (Service ports [port, protocol]): "$patch: delete" on a port written without protocol removes it,
+   alone or next to an element that spells a protocol (the deletion validates the keys against the element's own
+   tuple; was finding C04/reference/composite-key-delete-ignored-when-protocol-spelled-elsewhere). *)
+Theorem C04_composite_key_delete :
+  smerge cd_p cd_t = Ok (Some (svc [cd_port80])) /\
   smerge cd_p (svc [cd_port53]) =
   Ok (Some (Map [("apiVersion"%string, Scalar TStr SPlain "v1"%string); ("kind"%string, Scalar TStr SPlain "Service"%string);
                  ("spec"%string, Map [("ports"%string, Seq [])])])).
-Proof. exact composite_delete_refuted. Qed.
-Print Assumptions C04_composite_key_delete_refuted.
+Proof. exact composite_delete_works. Qed.
+Print Assumptions C04_composite_key_delete.
 
 Theorem C04_quote11_same_value :
   forall (nonstr : string -> bool) (v : node),
